@@ -567,6 +567,14 @@ func ruleWriteErrGuard(c *Ctx) {
 				ce, ok := a.E.(*ast.CallExpr)
 				return ok && !a.Val && wr.IsCallTo(ce, errIs) && len(ce.Args) == 2 && wr.ObjOf(ce.Args[1]) == eRej
 			})
+			// … and only for a write that actually failed (the error tested is the writer's)
+			failed := hasAtom(guards, func(a Atom) bool {
+				return AtomSaysNil(a, false, func(e ast.Expr) bool {
+					o, ok := wr.ObjOf(e).(*types.Var)
+					return ok && !o.IsField() && types.Identical(o.Type(), types.Universe.Lookup("error").Type())
+				})
+			})
+			c.Check(failed, "write:broken-only-after-a-failed-write", wr, s.Call, "writeErr is set only when the write returned a non-nil error (guards: %s); without that test every successful write would cancel all in-flight handlers", atomsString(guards))
 			c.Check(ctxAlive && notRejected, "write:broken-only-if-ctx-alive-and-not-rejected", wr, s.Call,
 				"writeErr (which cancels every handler and refuses all further calls) is set only under ctx.Err() == nil && !errors.Is(err, ErrRejected) (guards: %s): a cancel notice that times out or is rejected must leave the session usable", atomsString(guards))
 		}
